@@ -515,7 +515,9 @@ def oracle(w: World, scn: dict, info: dict):
                     tol = 0.002 if strict else (slack if kind != "period" else None)
                     kind = kind.split(":")[0] if tol is not None else kind
                     if tol is not None and abs((label - inst).total_seconds()) > tol:
-                        viol("C06.trigger_time_label", {"kind": kind},
+                        after = zone.offset_changes_between(m["wall"] - dt.timedelta(days=4), m["wall"] + dt.timedelta(hours=25))
+                        viol("C06.trigger_time_label",
+                             {"kind": kind, "func": func_kind, "dst": "near_change" if after else "none"},
                              f"{desc}: run at wall {m['wall']} carries trigger_time {label}, the denoted instant is {inst}", m["t"])
                     continue
                 # not a must instant: acceptable only if it is a don't-care instant
